@@ -11,6 +11,14 @@ New description kinds (understood by `CallBuilder`, not by `desc.build`):
                           D: 'dict' 'kwargs' 'pairs' 'dict+kwargs' 'from_json'
                           L: 'list' 'from_json'
                           O: 'kwargs' 'positional' 'partial' 'from_json'
+  ['ref', desc]         pg.Ref(<value of desc>): a reference NODE (a leaf of the
+                        tree it is stored in); `desc` is a fresh container or a
+                        ['node', ...] alias of a live node (a Ref node included)
+
+Classes with dynamic (regex-keyed) fields whose value specs have SYMBOLIC
+defaults (`Dyn`, `DynNotifier`, `DynAll`) live here (`cls_of` finds them next
+to the classes of `pgverif.models`); their members may be given as
+['missing'] (an explicit pg.MISSING_VALUE argument).
 
 Everything here is harness side; the only library calls are the public
 constructors / `pg.from_json` and the operation table of `gen/ops.py`.
@@ -22,6 +30,8 @@ from pgverif.gen import history as H
 from pgverif.gen import ops as O
 from pgverif.gen import values as V
 from pgverif.monitors import tree as TM
+
+T = pg.typing
 
 UNTYPED = ('Any2', 'Writable', 'Notifier', 'Bound', 'NoSymCmp')
 ONE_FIELD = ('Bound', 'NoSymCmp')
@@ -41,7 +51,9 @@ def inner(desc):
 def has_ext(desc):
   """Does the description use a kind `desc.build` does not know?"""
   k = desc[0]
-  if k in ('same', 'ctor'):
+  if k in ('same', 'ctor', 'ref'):
+    return True
+  if k == 'O' and desc[1] in LOCAL_CLASSES:
     return True
   if k in ('D', 'd', 'O'):
     return any(has_ext(v) for _, v in desc[2 if k == 'O' else 1])
@@ -84,6 +96,8 @@ def show(desc):
     return f'<same#{desc[1]} {show(desc[2])}>'
   if k == 'ctor':
     return f'{show(desc[2])}@{desc[1]}'
+  if k == 'ref':
+    return f'pg.Ref({show(desc[1])})'
   if k in ('D', 'd'):
     s = ', '.join(f'{kk!r}: {show(vv)}' for kk, vv in desc[1])
     typed = '/typed' if len(desc) > 2 and desc[2] else ''
@@ -102,7 +116,7 @@ def show(desc):
 
 
 _KINDS = ('v', 'D', 'L', 'd', 'l', 'O', 'leaf', 'node', 'missing', 'ins', 't',
-          'same', 'ctor')
+          'same', 'ctor', 'ref')
 
 
 def show_step(step):
@@ -120,6 +134,139 @@ def show_step(step):
   if step['op'] in CTOR_OPS:
     return f"{step['op']}({args}){sc}"
   return f"root{step['at'][0]}{step['at'][1]}.{step['op']}({args}){sc}"
+
+
+# ------------------------------------- classes with dynamic fields ----------
+# pg.Object classes whose fields are keyed by a NON-CONST key spec (a regular
+# expression matches any number of attribute names) and whose value specs have
+# symbolic defaults (an object, a typed dict, an untyped dict, a list, a
+# pg.Dict under Any): every key that is given as pg.MISSING_VALUE is completed
+# with the default of its field, and each completion must be a node of its own.
+
+def dyn_fields():
+  return [
+      (T.StrKey('o_.*'), T.Object(M.Inner, default=M.Inner())),
+      (T.StrKey('d_.*'), T.Dict([('k', T.Int(default=1)),
+                                 ('sub', T.Dict(default={})),
+                                 ('vs', T.List(T.Any(), default=[]))])),
+      (T.StrKey('e_.*'), T.Dict(default={'z': [1]})),
+      (T.StrKey('l_.*'), T.List(T.Any(), default=[{'a': 1}])),
+      (T.StrKey('a_.*'), T.Any(default=pg.Dict(w=pg.List([1])))),
+      ('fixed', T.Object(M.Inner, default=M.Inner())),
+      ('free', T.Any(default=None)),
+  ]
+
+
+@pg.members(dyn_fields())
+class Dyn(pg.Object):
+  """Regex-keyed members with symbolic defaults + two const fields."""
+
+
+class DynNotifier(Dyn):
+  """Same, with an overridden change handler."""
+
+  def _on_change(self, field_updates):
+    M._record(self, 'change', field_updates)   # pylint: disable=protected-access
+    super()._on_change(field_updates)
+
+
+@pg.members([('x', T.Any(default=None)),
+             (T.StrKey(), T.Any(default=pg.Dict(w=pg.List([1]))))])
+class DynAll(pg.Object):
+  """Every keyword is a member; the catch-all field has a symbolic default."""
+
+
+def dyn_dict_spec():
+  """The regex-keyed fields of `Dyn`, bound to a pg.Dict directly."""
+  return T.Dict([f for f in dyn_fields() if not isinstance(f[0], str)])
+
+
+LOCAL_CLASSES = {'Dyn': Dyn, 'DynNotifier': DynNotifier, 'DynAll': DynAll}
+DYN_PREFIXES = 'odela'
+
+
+def cls_of(name):
+  return LOCAL_CLASSES.get(name) or getattr(M, name)
+
+
+def is_dyn(node):
+  return isinstance(node, (Dyn, DynAll))
+
+
+def missing_groups(desc):
+  """The largest number of members of an object / typed-dict description that
+  are given as ['missing'] and fall under ONE key spec."""
+  b = inner(desc)
+  mem, paired = members(b)
+  if not paired:
+    return 0
+  groups = {}
+  for k, v in mem:
+    if v == ['missing'] and isinstance(k, str):
+      if b[0] == 'O' and b[1] == 'DynAll':
+        g = 'x' if k == 'x' else '*'
+      else:
+        g = k.split('_')[0] if '_' in k else k
+      groups[g] = groups.get(g, 0) + 1
+  return max(groups.values()) if groups else 0
+
+
+def obj_kind(desc):
+  """Constructor kind (mechanism part) of an object description."""
+  if desc[1] not in LOCAL_CLASSES:
+    return 'Object'
+  return 'Object/dynamic' + (
+      '+missing' if any(v == ['missing'] for _, v in desc[2]) else '')
+
+
+def dyn_value(rng, prefix, sub):
+  """A valid member for the `Dyn` field with this key prefix."""
+  if prefix == 'o':
+    return ['O', 'Inner', [['p', ['v', rng.randint(0, 5)]]]]
+  if prefix == 'd':
+    f = []
+    if rng.random() < 0.5:
+      f.append(['k', ['v', rng.randint(0, 5)]])
+    if rng.random() < 0.5:
+      f.append(['sub', ['d', [[V.key(rng, False), sub()]]]])
+    if rng.random() < 0.5:
+      f.append(['vs', ['l', [sub() for _ in range(rng.randint(0, 2))]]])
+    return ['d', f]
+  if prefix == 'e':
+    return ['d', [[V.key(rng, False), sub()]] if rng.random() < 0.7 else []]
+  if prefix == 'l':
+    return ['l', [sub() for _ in range(rng.randint(0, 2))]]
+  return sub()
+
+
+def dyn_names(rng, prefix, n):
+  return [f'{prefix}_{s}' for s in rng.sample(['0', '1', 'x', '', 'b_c'], n)]
+
+
+def dyn_desc(rng, sub, p_missing=0.45):
+  """An object of the dynamic-field classes (or a pg.Dict bound to the same
+  fields): 1-3 key specs with 1-3 keys each, every member either given or
+  left to its default by an EXPLICIT pg.MISSING_VALUE."""
+  r = rng.random()
+  p_missing = rng.choice([0.0, p_missing, p_missing, 0.8])
+  val = lambda pre: (['missing'] if rng.random() < p_missing
+                     else dyn_value(rng, pre, sub))
+  if r < 0.2:
+    names = rng.sample(['x', 'p', 'q', 'r1', 'zz', 'o_1'], rng.randint(1, 4))
+    return ['O', 'DynAll', [[n, val('a')] for n in names]]
+  f = []
+  for pre in rng.sample(DYN_PREFIXES, rng.randint(1, 3)):
+    for name in dyn_names(rng, pre, rng.randint(1, 3)):
+      f.append([name, val(pre)])
+  if r < 0.35:
+    rng.shuffle(f)
+    return ['D', f, {'value_spec': dyn_dict_spec()}]
+  if rng.random() < 0.3:
+    f.append(['fixed', val('o')])
+  if rng.random() < 0.3:
+    f.append(['free', sub()])
+  rng.shuffle(f)
+  return ['O', rng.choice(['Dyn', 'Dyn', 'DynNotifier']), f]
 
 
 # ------------------------------------------------------ hostile keys --------
@@ -459,11 +606,14 @@ class CallBuilder:
     if k == 't':
       return tuple(self.build(vv) for vv in desc[1])
     if k == 'O':
-      cls = getattr(M, desc[1])
+      cls = cls_of(desc[1])
       kw = {kk: self.build(vv) for kk, vv in desc[2]}
-      return made('Object', self.ctor('Object', lambda: cls(**kw), kw.values()))
+      kind = obj_kind(desc)
+      return made(kind, self.ctor(kind, lambda: cls(**kw), kw.values()))
     if k == 'ins':
       return pg.Insertion(self.build(desc[1]))
+    if k == 'ref':
+      return pg.Ref(self.build(desc[1]))
     return D.build(desc, self.forest)
 
   def construct(self, form, desc):
@@ -490,20 +640,21 @@ class CallBuilder:
             'from_json:List', lambda: pg.from_json(items), items))
       return self.made('List', self.ctor('List', lambda: pg.List(items), items))
     if k == 'O':
-      cls = getattr(M, desc[1])
+      cls = cls_of(desc[1])
       pairs = [(kk, self.build(vv)) for kk, vv in desc[2]]
       vals = [vv for _, vv in pairs]
+      kind = obj_kind(desc)
       if form == 'positional':
         fn = lambda: cls(*vals)
       elif form == 'partial':
         fn = lambda: cls.partial(**dict(pairs))
       elif form == 'from_json':
-        return self.made('from_json:Object', self.ctor(
-            'from_json:Object', lambda: pg.from_json(
+        return self.made('from_json:' + kind, self.ctor(
+            'from_json:' + kind, lambda: pg.from_json(
                 dict([('_type', cls.__type_name__)] + pairs)), vals))
       else:
         fn = lambda: cls(**dict(pairs))
-      return self.made('Object', self.ctor('Object', fn, vals))
+      return self.made(kind, self.ctor(kind, fn, vals))
     raise ValueError(f'harness: no construction form {form!r} for {k!r}')
 
   def made(self, kind, value):
@@ -534,9 +685,10 @@ class AliasValueSource(H.ValueSource):
   """
 
   def __init__(self, forest, target, p_same=0.3, p_inject=0.2, p_form=0.25,
-               p_twin=0.15, p_prebuilt=0.5, p_hostile=0.12, **kw):
+               p_twin=0.15, p_prebuilt=0.5, p_hostile=0.12, p_ref=0.06, **kw):
     super().__init__(forest, target, **kw)
-    self.p_twin = p_twin
+    self.p_twin, self.p_ref = p_twin, p_ref
+    self.n_ref = 0
     self.p_prebuilt, self.p_hostile = p_prebuilt, p_hostile
     self.n_prebuilt = self.n_hostile = 0
     self.p_same, self.p_inject, self.p_form = p_same, p_inject, p_form
@@ -562,7 +714,15 @@ class AliasValueSource(H.ValueSource):
         return tw
     if not typed and self.given and rng.random() < self.p_same:
       return self.share(rng.choice(self.given))
+    if not typed and rng.random() < self.p_ref:
+      d = self.reference(rng)
+      self.given.append(d)
+      return d
     d = super().__call__(rng, node, key)
+    if (typed and d[0] == 'v' and isinstance(d[1], pg.Object)
+        and rng.random() < 4 * self.p_ref):
+      self.n_ref += 1
+      return ['ref', d]           # a reference to an acceptable object
     if typed and d[0] == 'v':
       if isinstance(d[1], (dict, list)) and rng.random() < self.p_prebuilt:
         # The same value as a PRE-BUILT symbolic container (the caller keeps a
@@ -588,6 +748,27 @@ class AliasValueSource(H.ValueSource):
     if inner(d)[0] in SYMBOLIC_KINDS or d[0] == 'node':
       self.given.append(d)
     return d
+
+  def reference(self, rng):
+    """pg.Ref(...) of a fresh container or of a live node (of another tree
+    mostly; a reference into the tree that receives it is refused by the
+    library, which must leave everything as it was). The live node may itself
+    be a reference node."""
+    self.n_ref += 1
+    nodes = all_members(self.forest) if self.forest else []
+    if nodes and rng.random() < 0.5:
+      refs = [x for x in nodes if isinstance(x[2], pg.Ref)]
+      pool = refs if refs and rng.random() < 0.5 else nodes
+      other = [x for x in pool if x[0] != self.target[0]]
+      if other and rng.random() < 0.85:
+        pool = other
+      ridx, keys, _ = rng.choice(pool)
+      return ['ref', ['node', ridx, list(keys)]]
+    while True:
+      d = D.gen(rng, 2, classes=self.classes, typed=False,
+                symbolic=None if rng.random() < 0.4 else True)
+      if d[0] in CONTAINER_KINDS:
+        return ['ref', d]
 
   def twin(self, rng, node, key):
     """The node stored under the same keys in ANOTHER tree of the forest (a
@@ -648,6 +829,8 @@ def pick_form(rng, d):
     if len(d) > 2 and d[2]:
       return None
     return rng.choice(['list', 'from_json'])
+  if k == 'O' and d[1] in LOCAL_CLASSES:
+    return rng.choice(['kwargs', 'kwargs', 'partial', 'from_json'])
   if k == 'O' and d[1] in UNTYPED:
     names = [kk for kk, _ in d[2]]
     forms = ['kwargs', 'partial', 'from_json']
@@ -857,7 +1040,9 @@ def prebuild_members(rng, desc, bad=False, p=0.6):
 def ctor_kind(step):
   d = step['args']['v']
   kind = {'D': 'Dict', 'L': 'List', 'O': 'Object'}[inner(d)[0]]
-  if step['op'] == 'new typed' and kind != 'Object':
+  if kind == 'Object':
+    kind = obj_kind(inner(d))
+  elif step['op'] in ('new typed', 'new dynamic'):
     kind += '/typed'
   if d[0] == 'ctor' and d[1] == 'from_json':
     return 'from_json:' + kind
